@@ -37,6 +37,10 @@ type mcase struct {
 	what   string
 	data   []byte
 	expect string // driver specific expectation tag ("" = anything but a crash)
+	// optional: report under this decoder name instead of the object's (e.g. a payload relabelled as another kind)
+	decName string
+	// optional: build data on demand (huge inputs)
+	lazy func() []byte
 }
 
 // decoder runs real code on a mutated input; note != "" reports an oracle failure on that input.
@@ -177,6 +181,13 @@ func forEachCase(spec *mutSpec, objs []object, thorough bool, f func(i int, c *m
 	return i
 }
 
+func clipBytes(b []byte, n int) []byte {
+	if len(b) > n {
+		return b[:n]
+	}
+	return b
+}
+
 func atoi(s string) int { v, _ := strconv.Atoi(s); return v }
 
 // childMain: process cases i with i%n == k, i >= from. Protocol on stdout: "S i" before each case, "P i dec\tmsg" for a
@@ -197,6 +208,9 @@ func childMain(spec *mutSpec, args []string) {
 		// the marker must be out before a fatal runtime error can kill the process
 		fmt.Fprintf(w, "S %d\n", i)
 		w.Flush()
+		if c.lazy != nil {
+			c.data = c.lazy()
+		}
 		for _, d := range spec.decodersFor(objs[c.obj].kind) {
 			in := append([]byte{}, c.data...)
 			var ok bool
@@ -345,7 +359,17 @@ func runMutations(r *ev.Run, spec *mutSpec) map[string]any {
 			if dec == "" { // fatal death: the whole process went down
 				dec = spec.mainDecoder(objs[b.c.obj].kind)
 			}
+			if b.c.decName != "" {
+				dec = b.c.decName
+			}
+			if b.c.lazy != nil && b.c.data == nil {
+				b.c.data = clipBytes(b.c.lazy(), 256)
+			}
 			cl := b.ev.class
+			if cl == "note" && strings.HasPrefix(b.ev.detail, "info:") { // informational outcome class, not a failure
+				r.Class(b.ev.detail[5:])
+				continue
+			}
 			counts[cl]++
 			r.Class("mutant_" + cl)
 			if cl == "note" {
